@@ -41,7 +41,13 @@ func NewInterceptedMiniblock(arg *ArgInterceptedMiniblock) (*InterceptedMinibloc
 		hasher:           arg.Hasher,
 		shardCoordinator: arg.ShardCoordinator,
 	}
-	inMiniblock.processFields(arg.MiniblockBuff)
+	// the hash must identify the content, not the particular byte string received:
+	// it is computed over the canonical re-encoding of the decoded value
+	canonicalBuff, err := arg.Marshalizer.Marshal(miniblock)
+	if err != nil {
+		return nil, err
+	}
+	inMiniblock.processFields(canonicalBuff)
 
 	return inMiniblock, nil
 }
